@@ -288,7 +288,10 @@ impl Target {
                 let p = guard("get_packets_to_send", || c.get_packets_to_send())?;
                 obs += p.len() as u64 * 100;
                 guard("status getters", || {
-                    let _ = (c.is_connected(), c.is_disconnected(), c.disconnect_reason(), c.rtt(), c.packet_loss(), c.channel_available_memory(1u8));
+                    let _ = (c.is_connected(), c.is_disconnected(), c.disconnect_reason(), c.rtt(), c.packet_loss(), c.bytes_sent_per_sec(), c.bytes_received_per_sec());
+                    for ch in 0..3u8 {
+                        let _ = (c.channel_available_memory(ch), c.can_send_message(ch, 10), c.can_send_message(ch, 5000));
+                    }
                 })?;
                 guard("update", || c.update(Duration::from_secs(4)))?;
                 if let Some(r) = c.disconnect_reason() {
@@ -310,7 +313,10 @@ impl Target {
                 let p = guard("get_packets_to_send", || srv.get_packets_to_send(CID).unwrap_or_default())?;
                 obs += p.len() as u64 * 100;
                 guard("status getters", || {
-                    let _ = (srv.is_connected(CID), srv.disconnect_reason(CID), srv.clients_id(), srv.disconnections_id(), srv.rtt(CID), srv.channel_available_memory(CID, 1u8));
+                    let _ = (srv.is_connected(CID), srv.disconnect_reason(CID), srv.clients_id(), srv.disconnections_id(), srv.rtt(CID), srv.packet_loss(CID), srv.bytes_sent_per_sec(CID), srv.bytes_received_per_sec(CID));
+                    for ch in 0..3u8 {
+                        let _ = (srv.channel_available_memory(CID, ch), srv.can_send_message(CID, ch, 10), srv.can_send_message(CID, ch, 5000));
+                    }
                 })?;
                 if let Some(r) = srv.disconnect_reason(CID) {
                     obs += h64(&format!("{:?}", r)) % 1000;
@@ -354,6 +360,9 @@ impl Target {
                         format!("reliable exchange on the server's other connection did not complete (up {:?} bytes, down {:?} bytes)", got_up.map(|m| m.len()), got_down.map(|m| m.len())),
                     ));
                 }
+                // whatever the hostile packet left behind must not go off later either (stale-fragment clean-up at 3 s)
+                guard("update", || srv.update(Duration::from_secs(4)))?;
+                guard("update", || srv.update(Duration::from_millis(1)))?;
             }
         }
         Ok(obs)
